@@ -33,6 +33,7 @@ type Engine struct {
 	modCache map[*ssa.Function]*ModInfo
 	mu       sync.Mutex
 	globals  map[string]*globalInfo
+	addrTaken map[string][]*ssa.Function
 	tables   map[string]*TableInfo
 	frozen   map[string]bool
 	usedC    map[string]map[string]bool
@@ -78,6 +79,8 @@ func LoadEngine(repo string) (*Engine, error) {
 		}
 	}
 	e.Specs = LoadSpecs(repo, nil)
+	e.preRegisterExterns()
+	e.analyzeAddressTaken()
 	e.analyzeGlobals()
 	e.analyzeTables()
 	e.computeMods()
